@@ -2,7 +2,7 @@
    nothing it transmits is longer than the bearer's ATT_MTU; at most one indication per
    bearer awaits its confirmation.
    Statements only; every theorem is closed by [exact] of a lemma of Proofs/AttServer.v.
-   The model (Model/AttServer.v) is of the code after fixes/D10a..D10e.patch. *)
+   The model (Model/AttServer.v) is of the code after fixes/D10a..D10f.patch. *)
 From Coq Require Import ZArith List Bool.
 From BV Require Import Gen.C10Tables Gen.C10Skeleton Model.AttServer Model.AttSkeleton Proofs.AttServer.
 Import ListNotations.
@@ -130,6 +130,50 @@ Theorem C10_src_ATT_PDU_from_bytes : src_matches k_ATT_PDU_from_bytes = true.
 Proof. vm_compute. reflexivity. Qed.
 Print Assumptions C10_src_ATT_PDU_from_bytes.
 
+(* where a bearer's ATT_MTU comes from: the L2CAP accept path and the channel constructor
+   (att_mtu = min(mtu, peer_mtu)), the response handlers, the update hooks, and the list of
+   ALL statements of l2cap.py / device.py / gatt_server.py / att.py that assign an `att_mtu`
+   attribute or call on_att_mtu_update -- moving that computation breaks an obligation *)
+Theorem C10_src_LeCreditBasedChannel__init : src_matches k_LeCreditBasedChannel__init = true.
+Proof. vm_compute. reflexivity. Qed.
+Print Assumptions C10_src_LeCreditBasedChannel__init.
+
+Theorem C10_src_LeCreditBasedChannel_on_connection_response : src_matches k_LeCreditBasedChannel_on_connection_response = true.
+Proof. vm_compute. reflexivity. Qed.
+Print Assumptions C10_src_LeCreditBasedChannel_on_connection_response.
+
+Theorem C10_src_LeCreditBasedChannel_on_enhanced_connection_response : src_matches k_LeCreditBasedChannel_on_enhanced_connection_response = true.
+Proof. vm_compute. reflexivity. Qed.
+Print Assumptions C10_src_LeCreditBasedChannel_on_enhanced_connection_response.
+
+Theorem C10_src_LeCreditBasedChannel_on_att_mtu_update : src_matches k_LeCreditBasedChannel_on_att_mtu_update = true.
+Proof. vm_compute. reflexivity. Qed.
+Print Assumptions C10_src_LeCreditBasedChannel_on_att_mtu_update.
+
+Theorem C10_src_LeCreditBasedChannel_write : src_matches k_LeCreditBasedChannel_write = true.
+Proof. vm_compute. reflexivity. Qed.
+Print Assumptions C10_src_LeCreditBasedChannel_write.
+
+Theorem C10_src_LeCreditBasedChannel_process_output : src_matches k_LeCreditBasedChannel_process_output = true.
+Proof. vm_compute. reflexivity. Qed.
+Print Assumptions C10_src_LeCreditBasedChannel_process_output.
+
+Theorem C10_src_ChannelManager_on_l2cap_le_credit_based_connection_request : src_matches k_ChannelManager_on_l2cap_le_credit_based_connection_request = true.
+Proof. vm_compute. reflexivity. Qed.
+Print Assumptions C10_src_ChannelManager_on_l2cap_le_credit_based_connection_request.
+
+Theorem C10_src_ChannelManager_on_l2cap_credit_based_connection_request : src_matches k_ChannelManager_on_l2cap_credit_based_connection_request = true.
+Proof. vm_compute. reflexivity. Qed.
+Print Assumptions C10_src_ChannelManager_on_l2cap_credit_based_connection_request.
+
+Theorem C10_src_Connection_on_att_mtu_update : src_matches k_Connection_on_att_mtu_update = true.
+Proof. vm_compute. reflexivity. Qed.
+Print Assumptions C10_src_Connection_on_att_mtu_update.
+
+Theorem C10_src_att_mtu_sites : src_matches k_att_mtu_sites = true.
+Proof. vm_compute. reflexivity. Qed.
+Print Assumptions C10_src_att_mtu_sites.
+
 (* request_one_reply: for every server state (any database, any bearer, any subscription and
    indication state; [st] includes, per attribute, what its value object does on read and on
    write: returns / stores bytes, raises ATT_Error with any code, raises any other exception
@@ -170,6 +214,30 @@ Proof.
   exists st', p. split; [exact H1|exact (H3 Hm)].
 Qed.
 Print Assumptions C10_reply_le_mtu.
+
+(* The ATT_MTU the property means is the one negotiated on the wire.  Enhanced bearer: the
+   minimum of the two L2CAP MTU fields ([negotiated_mtu local peer], what
+   LeCreditBasedChannel.__init__ computes); a reply exceeds neither side's MTU, and no PDU --
+   in particular no Exchange MTU Request, refused there (D10f) -- ever changes it.  Fixed
+   bearer: an Exchange MTU Request with client_rx_mtu >= 23 is answered with server_rx_mtu =
+   max_mtu and the ATT_MTU becomes the minimum of the two values seen on the wire. *)
+Theorem C10_reply_le_negotiated_mtu : forall st opc ps local peer,
+  In opc spec_requests -> 23 <= local -> 23 <= peer -> mtu_of st = negotiated_mtu local peer ->
+  exists st' p, rx st opc ps = Some (st', [p]) /\ len p <= local /\ len p <= peer.
+Proof. exact reply_le_negotiated. Qed.
+Print Assumptions C10_reply_le_negotiated_mtu.
+
+Theorem C10_enhanced_bearer_mtu_fixed : forall st opc ps st' out,
+  b_enh (s_b st) = true -> rx st opc ps = Some (st', out) -> mtu_of st' = mtu_of st.
+Proof. exact enhanced_mtu_fixed. Qed.
+Print Assumptions C10_enhanced_bearer_mtu_fixed.
+
+Theorem C10_fixed_bearer_mtu_exchange : forall st x y,
+  b_enh (s_b st) = false -> 23 <= x + 256 * y ->
+  rx st 2 [x; y] = Some (set_mtu st (negotiated_mtu (s_max_mtu st) (x + 256 * y)),
+                         [[OP_MTU_RSP] ++ le16 (s_max_mtu st)]).
+Proof. exact fixed_mtu_exchange. Qed.
+Print Assumptions C10_fixed_bearer_mtu_exchange.
 
 (* server_initiated_le_mtu: a notification / indication is truncated so that the PDU fits
    the ATT_MTU in force when it is issued... *)
